@@ -621,7 +621,7 @@ def _elem(call_like, i):
 
 
 class Store:
-    __slots__ = ("target", "path", "sub", "value", "raw_value", "guards", "stmt", "aug", "prior", "depth")
+    __slots__ = ("target", "path", "sub", "value", "raw_value", "guards", "stmt", "aug", "prior", "depth", "base")
 
     def __init__(self, target, path, sub, value, raw_value, guards, stmt, aug=None):
         self.target = target      # original target node
@@ -634,6 +634,7 @@ class Store:
         self.aug = aug
         self.prior = []
         self.depth = 0            # inlining depth (0 = the analysed function itself)
+        self.base = None          # for subscript stores: what the base name denotes on this path (substituted), to see aliases of parameters
 
 
 class CallEv:
@@ -799,6 +800,7 @@ def walk_path(path, params=(), init_env=None, kill_attr_on_call=None, prog=None,
         elif isinstance(target, ast.Subscript):
             d = dotted(target.value) or src(S(target.value))
             st = Store(target, d, S(target.slice), value_sub, raw_value, list(guards), stmt, aug)
+            st.base = S(target.value)
         elif isinstance(target, (ast.Tuple, ast.List)):
             for i, t in enumerate(target.elts):
                 if isinstance(t, ast.Starred):
